@@ -54,6 +54,10 @@ def adopt(seed_dir, prop, name):
         return 1
     dst = os.path.join(SEEDED, name)
     os.makedirs(dst, exist_ok=True)
+    try:  # a re-adoption (rebased patch) keeps the detection history of the change
+        meta["history"] = json.load(open(os.path.join(dst, "meta.json"))).get("history", [])
+    except (OSError, ValueError):
+        pass
     shutil.copy(os.path.join(seed_dir, "patch.diff"), os.path.join(dst, "patch.diff"))
     shutil.copy(os.path.join(seed_dir, "demo.py"), os.path.join(dst, "demo.py"))
     notes = os.path.join(seed_dir, "NOTES.md")
